@@ -35,7 +35,9 @@ TRUSTED = [
     "compared on every run with the reads the translator finds (gen_reads_known, gen_effective_read)",
     "extraction (ExtrOcamlBasic + ExtrOcamlString) + extract/C06/driver.ml (JSON reader, sorts object keys) + extract/zutil.ml",
     "drivers/C06.cpp (`#define private public` to reach device::setupKernelInfo); g++ as the JIT compiler in the build replays",
-    "process environment fixed by the harness (OCCA_CXX etc. unset/fixed), devices created with only a mode",
+    "process environment fixed by the harness (OCCA_CXX etc. unset/fixed); kernel properties given per build, at device level "
+    "(occa::device({mode, kernel: {...}})) or in occa::settings(); the merge of the three levels itself is C26's subject "
+    "(cases keep an object-valued property at one level per configuration)",
 ]
 META = dict(
     level="Coq theorem over an ideal XOR hash (hash value = finite set of atoms, ^ = symmetric difference): for every key "
@@ -74,6 +76,7 @@ PATHS = {
     "verbose": "b", "silent": "b", "vendor": "i", "foo": "s", "okl/foo": "i",
 }
 INERT = ["verbose", "silent", "vendor", "foo", "okl/foo"]
+LEVELP = ["defines", "includes", "headers", "functions", "compiler_flags", "okl/include_paths"]
 ALLP = list(PATHS)
 
 
@@ -97,8 +100,9 @@ class Gen:
 
     def pair(self):
         rng = self.rng
-        kind = rng.choices(["ident", "inert", "one", "swap", "move", "cancel", "source", "mode", "random", "remove"],
-                           [8, 5, 30, 12, 8, 12, 5, 5, 10, 5])[0]
+        kind = rng.choices(["ident", "inert", "one", "swap", "move", "cancel", "source", "mode", "random", "remove",
+                            "level", "levelmove"],
+                           [8, 5, 26, 12, 8, 12, 5, 5, 9, 5, 10, 4])[0]
         m1 = m2 = rng.choice("SSO")
         base = self.base()
         toks = ["A%s=%s" % (p, enc(v)) for p, v in base.items()]
@@ -133,6 +137,19 @@ class Gen:
             if base:
                 p = rng.choice(list(base))
                 toks = [t for t in toks if not t[1:].startswith(p + "=")] + ["1%s=%s" % (p, enc(base[p]))]
+        elif kind in ("level", "levelmove"):
+            # the property comes from the device's kernel properties (d) or from occa::settings() (g), not from the build's
+            p = rng.choice(LEVELP if rng.random() < 0.7 else [q for q in ALLP if q != "mode"])
+            toks = [t for t in toks if not t[1:].startswith(p + "=")]
+            l1 = rng.choice("dg")
+            a = self.value(p)
+            if kind == "level":
+                b = self.value(p) if rng.random() < 0.85 else a
+                toks += ["%s1%s=%s" % (l1, p, enc(a))]
+                if rng.random() < 0.8:
+                    toks += ["%s2%s=%s" % (rng.choice([l1, "d", "g"]), p, enc(b))]
+            else:
+                toks += ["%s1%s=%s" % (l1, p, enc(a)), "2%s=%s" % (p, enc(a))]
         elif kind == "source":
             s2 = rng.choice([x for x in (0, 1, 2) if x != s1])
             if rng.random() < 0.05:
@@ -233,14 +250,31 @@ def build_families(base):
         ("okl/include_paths not in the key", BUILD_SRC_INC,
          {"compiler_flags": '"-DC06_X=4"', "okl/include_paths": '["%s"]' % da},
          {"compiler_flags": '"-DC06_X=4"', "okl/include_paths": '["%s"]' % db}),
+        ("defines from the device's kernel properties", BUILD_SRC,
+         {"compiler_flags": '"-DC06_X=6"', "@d:defines": '{"C06_Y":1}'},
+         {"compiler_flags": '"-DC06_X=6"', "@d:defines": '{"C06_Y":2}'}),
+        ("headers from occa::settings()", BUILD_SRC,
+         {"compiler_flags": '"-DC06_X=7"', "@g:headers": '["#define C06_Y 1"]'},
+         {"compiler_flags": '"-DC06_X=7"', "@g:headers": '["#define C06_Y 2"]'}),
     ]
+
+
+def cfg_tokens(cfg, who):
+    """tokens of a build-replay configuration; keys "@d:path" / "@g:path" are device-level / settings-level"""
+    out = []
+    for p, v in cfg.items():
+        if p.startswith("@"):
+            out.append("%s%s%s=%s" % (p[1], who, p[3:], enc(v)))
+        else:
+            out.append("%s%s=%s" % (who, p, enc(v)))
+    return out
 
 
 def one_build(exe, cache, mode, src, cfg):
     os.makedirs(cache, exist_ok=True)
     env = C.lib_env(FLAV, cache_dir=cache)
     env.update(FIXED_ENV)
-    toks = ["A%s=%s" % (p, enc(v)) for p, v in cfg.items()] + ["xA=" + enc(src)]
+    toks = cfg_tokens(cfg, "A") + ["xA=" + enc(src)]
     rc, out, err = C.sh([exe, "build", mode, "-", "k"] + toks, env=env, timeout=600)
     line = ([l for l in out.splitlines() if l.startswith("R ")] or ["R NONE rc=%d %s" % (rc, err[-200:].replace("\n", " "))])[0]
     return line
@@ -318,11 +352,13 @@ def run(run, tier, seed, replay_case=None):
         if replay_case is None:
             fams = build_families(base)
             jobs = [(i, f, m) for i, f in enumerate(fams) for m in (["S"] if tier == "quick" else ["S", "O"])]
-            with ThreadPoolExecutor(max_workers=3) as ex:
+            if tier == "quick":
+                jobs = jobs[:3] + [(j[0], j[1], "O") for j in jobs[3:]]
+            with ThreadPoolExecutor(max_workers=5) as ex:
                 replays = list(ex.map(lambda j: build_replay(exe, base, j[0], j[1], j[2]), jobs))
             for r in replays:
                 if not r["ok"] and len(run.violations) < 12:
-                    toks = ["1%s=%s" % (p, enc(v)) for p, v in r["c1"].items()] + ["2%s=%s" % (p, enc(v)) for p, v in r["c2"].items()]
+                    toks = cfg_tokens(r["c1"], "1") + cfg_tokens(r["c2"], "2")
                     run.violation("a build reuses the binary of a different configuration: " + r["name"],
                                   "property C06 fails on the implementation built from /repo\n"
                                   "case: %s %s %s\n"
@@ -347,7 +383,8 @@ def run(run, tier, seed, replay_case=None):
         sig = set()
         for c, i in zip(cases, I):
             toks = c.split()
-            diff = tuple(sorted(set(t[1:].split("=")[0] for t in toks[2:] if t[0] in "12")))
+            diff = tuple(sorted(set((t[1:] if t[0] in "12" else t[0] + ":" + t[2:]).split("=")[0] for t in toks[2:]
+                                    if t[0] in "12" or (t[0] in "dg" and t[1] in "12"))))
             sig.add((toks[0], toks[1], diff, i))
         cov["distinct_nontrivial"] = len(sig)
         cov["rule"] = ("configuration pairs counted as distinct by (mode of each side, set of property paths on which the two sides "
